@@ -82,6 +82,13 @@ var refusedV6 = []struct {
 
 var (
 	nat64Net = mustCIDR("64:ff9b::/96") // RFC 6052 well-known NAT64 prefix
+	// nat64LocalUseNet is the RFC 8215 local-use IPv4/IPv6 translation prefix. An
+	// operator-run NAT64/DNS64 maps any /96 (or shorter RFC 6052 layout) inside it
+	// onto the IPv4 space exactly like the well-known prefix does, so
+	// 64:ff9b:1::a9fe:a9fe reaches 169.254.169.254. Same threat class: refuse the
+	// whole block (the embedded-v4 position depends on the deployment's prefix
+	// length, so there is no single unwrap to re-check).
+	nat64LocalUseNet = mustCIDR("64:ff9b:1::/48")
 	// v4TranslatedNet is the RFC 6052 IPv4-Translated special-purpose prefix. It
 	// is DISTINCT from the v4-mapped ::ffff:0:0/96 that ip.To4() unwraps: the
 	// embedded v4 sits one 16-bit group further right (bytes [12:16] with ffff at
@@ -154,7 +161,7 @@ func Refuse(ip net.IP) (bool, refusedReason) {
 	// NAT64 64:ff9b::/96 — a DNS64 resolver (or a hostile authoritative server)
 	// can legitimately synthesize 64:ff9b::a9fe:a9fe which EMBEDS 169.254.169.254.
 	// Unwrap the embedded v4 and re-check, and refuse the whole block outright.
-	if nat64Net.Contains(ip16) {
+	if nat64Net.Contains(ip16) || nat64LocalUseNet.Contains(ip16) {
 		return true, reasonNAT64
 	}
 	// IPv4-Translated ::ffff:0:0:0/96 (RFC 6052) — embeds a v4 in bytes [12:16]
